@@ -594,6 +594,42 @@ impl LyNative for ListRev {
   }
 }
 
+/// A stable merge sort. The comparator is user code: it may not describe a
+/// total order, which the standard library sort is allowed to answer with a panic
+fn merge_sort<F: FnMut(&Value, &Value) -> Ordering>(
+  items: &mut [Value],
+  scratch: &mut Vec<Value>,
+  compare: &mut F,
+) {
+  let len = items.len();
+  if len < 2 {
+    return;
+  }
+
+  let mid = len / 2;
+  merge_sort(&mut items[..mid], scratch, compare);
+  merge_sort(&mut items[mid..], scratch, compare);
+
+  scratch.clear();
+  scratch.extend_from_slice(items);
+  let (left, right) = scratch.split_at(mid);
+
+  let (mut l, mut r) = (0, 0);
+  for slot in items.iter_mut() {
+    // like the standard library the later element is asked about the earlier one
+    let take_left =
+      r >= right.len() || (l < left.len() && compare(&right[r], &left[l]) != Ordering::Less);
+
+    if take_left {
+      *slot = left[l];
+      l += 1;
+    } else {
+      *slot = right[r];
+      r += 1;
+    }
+  }
+}
+
 native_with_error!(ListSort, LIST_SORT);
 
 impl LyNative for ListSort {
@@ -609,7 +645,8 @@ impl LyNative for ListSort {
     hooks.push_root(list);
 
     let mut failure: Option<Call> = None;
-    list.sort_by(|a, b| {
+    let mut scratch = Vec::with_capacity(list.len());
+    merge_sort(&mut list, &mut scratch, &mut |a: &Value, b: &Value| {
       if failure.is_some() {
         return Ordering::Equal;
       }
